@@ -44,6 +44,14 @@ CHECKS = {
     "C18": {"level": "exploration",
             "flavours": [("tsan", False, 40000, 800000), ("plain", False, 100000, 2000000), ("asan", False, 0, 300000)]},
 }
+# a process death inside one of these operations is also a violation of the
+# property whose oracle covers the operation (the call did not deliver the
+# specified result); every death is a C09 violation
+ARITH = {"P_ADD", "P_SUB", "P_MUL", "P_IADD", "P_ISUB", "P_SCALE", "P_LSCALE", "P_DIV", "P_NEG", "P_ISCALE", "P_IDIV",
+         "P_LINCOMB", "P_ASSIGN", "P_XASSIGN"}
+MULTI = {"P_ADD", "P_SUB", "P_MUL", "P_IADD", "P_ISUB", "P_LINCOMB", "O_APPLY", "O_BILIN", "O_LIN", "O_HELD_APPLY",
+         "Q_NUMINT", "N_NEW"}
+DEATH_KINDS = {"C03": ARITH, "C08": MULTI}
 PLACE = ["place_nested", "place_partial", "place_touch", "place_gap", "place_empty", "place_identical"]
 RELEVANT_PROBES = {
     "C03": ["c03_compared", "mixed_order", "self_iadd", "post_failure_reuse"] + PLACE,
@@ -193,6 +201,9 @@ def replay_plan(binary, planfile_obj, tmpname, valgrind=False, record=False):
         site = (dead or {}).get("kind", "?")
         death = {"how": how, "site": site, "stderr": err[-6000:], "rc": rc}
         classes.add(("C09", "crash-" + how, site))
+        for prop, kinds in DEATH_KINDS.items():
+            if site in kinds:
+                classes.add((prop, "crash-" + how, site))
     return classes, h, result, death, (result or {}).get("switches")
 
 
@@ -513,7 +524,7 @@ def do_check(check, tier, seed):
     # dead runs: C09 always; C18 only if the canonical schedule survives; others: inconclusive
     dead_classes = {}
     aborted_foreign = 0
-    if check in ("C09", "C18"):
+    if check in ("C09", "C18") or check in DEATH_KINDS:
         first_of = {}
         for key, d in death_runs:
             if d.get("how") == "startup":
@@ -521,8 +532,11 @@ def do_check(check, tier, seed):
                 continue
             first_of.setdefault((key, d.get("how", "?"), d.get("kind", "?")), d)
         for (key, how, kind), d in sorted(first_of.items(), key=lambda kv: (kv[0][1], kv[0][2], kv[0][0])):
-            target = ("C09", "crash-" + how, kind)
-            if check == "C09" and (target in dead_classes or known_match(known, *target)):
+            if check in DEATH_KINDS and kind not in DEATH_KINDS[check]:
+                aborted_foreign += 1
+                continue
+            target = (check if check in DEATH_KINDS else "C09", "crash-" + how, kind)
+            if check != "C18" and (target in dead_classes or known_match(known, *target)):
                 dead_classes.setdefault(target, (key, d))
                 continue
             pf = dump_plan(key, d["i"])
@@ -544,8 +558,9 @@ def do_check(check, tier, seed):
                     aborted_foreign += 1   # dies sequentially as well: C09's business
                     continue
                 target = ("C18", "crash-under-schedule", crash[0][2])
-            else:
-                target = crash[0]
+            elif target not in cls_:
+                machinery_errors.append("dead run %s/%d dies differently when replayed (%s vs %s)" % (key, d["i"], target, sorted(cls_)))
+                continue
             dead_classes.setdefault(target, (key, d))
         for target, (key, d) in sorted(dead_classes.items()):
             k = known_match(known, *target)
